@@ -122,6 +122,11 @@ def allow_args(func: F) -> F:
             )
             raise ValueError(msg)
 
+        # Check that no argument is provided both positionally and as keyword
+        duplicated = set(list(parameters)[: len(args)]).intersection(kwargs)
+        if duplicated:
+            raise ValueError(f"Got multiple values for arguments: {duplicated}")
+
         # Convert all arguments to positional arguments in correct order
         positional = list(args) + convert_kwargs_to_args(kwargs, list(parameters))
 
